@@ -10,14 +10,12 @@ package event
 //@ ghost var scrubbedOut ref
 //@ func (e EventOnOfferCreated) String() (s string)
 //@   props C07
-//@   flag nosafety
 //@   after call Scrub ghost scrubbedOut = base(ret0)
 //@   at call Sprintf assert {only-the-scrubbed-text-is-formatted} calls(Scrub) == 1 && calls(Error) == 1 && len(arg1) == 1 && tagis(arg1[0], bytes) && base(scrubbed) == scrubbedOut
 //@   ensures {error-text-never-bypasses-the-scrubber} calls(Error) == calls(Scrub) && calls(Scrub) == calls(Sprintf)
 //
 //@ func (e EventOnBrokerRendezvous) String() (s string)
 //@   props C07
-//@   flag nosafety
 //@   after call Scrub ghost scrubbedOut = base(ret0)
 //@   at call Sprintf assert {only-the-scrubbed-text-is-formatted} calls(Scrub) == 1 && calls(Error) == 1 && len(arg1) == 1 && tagis(arg1[0], bytes) && base(scrubbed) == scrubbedOut
 //@   ensures {error-text-never-bypasses-the-scrubber} calls(Error) == calls(Scrub) && calls(Scrub) == calls(Sprintf)
